@@ -93,6 +93,11 @@ func hasTypeTest(b *ssa.BasicBlock) bool {
 			if cf := calleeOf(&x.Call); cf != nil && (isRole(cf, "toDecimal") || isRole(cf, "toInt") || isRole(cf, "toFloat") || isRole(cf, "toFloatPair")) {
 				return true
 			}
+			// a predicate of the repository that type-tests what it is given (isFloatArray(a)): the branch on its result is
+			// a type test of its own
+			if cf := calleeOf(&x.Call); cf != nil && len(cf.Blocks) > 0 && cf.Pkg == b.Parent().Pkg && cf.Signature.Results().Len() == 1 && isBoolType(cf.Signature.Results().At(0).Type()) && predicateTestsTypes(cf) {
+				return true
+			}
 			// a library search over the elements with a type-testing predicate (slices.IndexFunc(a, isNotString))
 			for _, arg := range x.Call.Args {
 				var pf *ssa.Function
@@ -115,6 +120,23 @@ func hasTypeTest(b *ssa.BasicBlock) bool {
 							}
 						}
 					}
+				}
+			}
+		}
+	}
+	return false
+}
+
+// predicateTestsTypes: the body of the predicate contains a type assertion or a numeric coercion.
+func predicateTestsTypes(pf *ssa.Function) bool {
+	for _, pb := range pf.Blocks {
+		for _, pin := range pb.Instrs {
+			switch y := pin.(type) {
+			case *ssa.TypeAssert:
+				return true
+			case *ssa.Call:
+				if cf := calleeOf(&y.Call); cf != nil && (isRole(cf, "toDecimal") || isRole(cf, "toInt") || isRole(cf, "toFloat")) {
+					return true
 				}
 			}
 		}
@@ -383,7 +405,11 @@ func ruleEToInt(p *Program, r *Reporter) {
 			case decided && truth && laterDecFail:
 				continue // defensive re-check of a value already known to be a number: infeasible
 			case decided && truth && et == "InvalidTypeError" && reportsAnotherValue(o.St, last, fail.Args[0]):
-				continue // the type error of another argument takes precedence over this argument's value error
+				// the type error of another argument takes precedence over this argument's value error, provided the path
+				// knows that other argument is not a number
+				if w := unjustifiedTypeError(o.St, last, toInt); w != nil {
+					bad = "the argument " + nd.render(w) + " is reported as invalid-type after an integer coercion of it failed without the path asking whether it is a number at all (a non-integral number is an invalid value, not an invalid type)"
+				}
 			case decided && truth && et != "integerConversionError":
 				bad = "a number " + arg + " that is not an integer is reported as " + et + " instead of the integer-conversion (invalid-value) error"
 			case !decided && et != "InvalidTypeError" && et != "integerConversionError":
@@ -418,6 +444,49 @@ func reportsAnotherValue(st *State, errv AV, v AV) bool {
 		}
 	}
 	return false
+}
+
+// unjustifiedTypeError: the error value describes (reflect.TypeOf) a value whose only failed coercions on the path are
+// integer coercions whose is-a-number flag the path never found false.
+func unjustifiedTypeError(st *State, errv AV, toInt *ssa.Function) AV {
+	for _, f := range st.fieldsOf(errv) {
+		sy, ok := f.(avSym)
+		if !ok || !strings.Contains(sy.tag, "TypeOf") {
+			continue
+		}
+		t, ok := sy.payload.(avTuple)
+		if !ok || len(t) != 1 {
+			continue
+		}
+		w := t[0]
+		failedInt, justified := false, false
+		for _, ev := range st.Trace {
+			if ev.Kind != "coerce-failed" || len(ev.Args) == 0 || avKey(ev.Args[0]) != avKey(w) {
+				continue
+			}
+			if ev.Fn != toInt {
+				justified = true // the decimal coercion fails for non-numbers only
+				continue
+			}
+			failedInt = true
+			if len(ev.Res) < 3 {
+				justified = true
+				continue
+			}
+			for _, c := range st.Conds {
+				if avKey(c.V) == avKey(ev.Res[1]) && !c.Truth {
+					justified = true
+				}
+				if n, ok := c.V.(avNot); ok && avKey(n.x) == avKey(ev.Res[1]) && c.Truth {
+					justified = true
+				}
+			}
+		}
+		if failedInt && !justified {
+			return w
+		}
+	}
+	return nil
 }
 
 func resultsHaveIsNum(toInt *ssa.Function) bool { return toInt.Signature.Results().Len() >= 3 }
